@@ -1,6 +1,1381 @@
-//! C13 — stub: correspondence harness not built yet.
+//! C13 — every DocSet is one sorted sequence under any mix of advance and seek.
+//!
+//! (a) direct: real combinators (`BufferedUnionScorer` via the `verif` hook, `intersect_scorers`,
+//!     `Exclude`, `RequiredOptionalScorer`, `ConstScorer`, `BitSetDocSet`, `AllScorer`,
+//!     `EmptyScorer`) over harness-defined sorted-vector children, nested up to depth 3, driven by
+//!     generated legal call programs; every observation is compared with
+//!       * the oracle: the specification cursor over the brute-force document list (computed here
+//!         from the children's lists), end sticky, score at d = score a fresh scorer has at d;
+//!       * the Lean implementation-level model (`C13 run`), call by call.
+//! (b) real queries: `Weight::scorer` on generated single-segment indexes (term, boolean nestings,
+//!     minimum-should-match, phrase, phrase-prefix, range, all, boost, const); oracle = sequence
+//!     of a fresh scorer driven by plain `advance`; the Lean specification cursor (`C13 spec`)
+//!     must agree with the harness-side cursor.
+use crate::rng::Rng;
 use crate::Ctx;
+use serde::{Deserialize, Serialize};
+use serde_json::json;
+use std::collections::BTreeSet;
+use std::panic::{catch_unwind, AssertUnwindSafe};
+use tantivy::query::{
+    AllQuery, AllScorer, BitSetDocSet, BooleanQuery, BoostQuery, ConstScoreQuery, ConstScorer, EmptyScorer,
+    EnableScoring, Exclude, Occur, PhrasePrefixQuery, PhraseQuery, Query, RangeQuery, RequiredOptionalScorer, Scorer,
+    SumCombiner, TermQuery,
+};
+use tantivy::schema::{IndexRecordOption, Schema, FAST, INDEXED, TEXT};
+use tantivy::{doc, DocId, DocSet, Index, IndexWriter, Term, COLLECT_BLOCK_BUFFER_LEN, TERMINATED};
+use tantivy_common::{BitSet, TinySet};
+
+const BLOCK_NUM_TINYBITSETS: usize = 16;
+const BLOCK_WINDOW: u32 = 1024;
+const HORIZON: u32 = 4096;
+
+static LAST_PANIC: std::sync::Mutex<String> = std::sync::Mutex::new(String::new());
+fn last_panic() -> String {
+    LAST_PANIC.lock().map(|s| s.clone()).unwrap_or_default()
+}
+
+const K_RANGE_OVERFLOW: &str = "C13:range-seek-danger-target-below-last-seek-overflow";
+const K_PHRASE_ASSERT: &str = "C13:phrase-seek-danger-target-below-doc-assert";
+/// key of a panic: the debug assertion of `PhraseScorer::seek_danger` (target >= doc) is a known finding
+fn panic_key() -> &'static str {
+    let m = last_panic();
+    if m.contains("phrase_scorer.rs") && m.contains("should be greater than or equal to doc") {
+        K_PHRASE_ASSERT
+    } else if m.contains("fast_field_range_doc_set.rs") && m.contains("subtract with overflow") {
+        K_RANGE_OVERFLOW
+    } else {
+        "C13:panic"
+    }
+}
+const K_BITSET: &str = "C13:bitset-seek-past-max-not-sticky";
+const K_NESTED_UNION: &str = "C13:nested-union-seek-danger-bound-overshoots";
+const K_S4: &str = "C13:union-fill-buffer-stale-scores";
+const K_FILL_SCORE: &str = "C13:union-fill-buffer-score-not-refreshed";
+const K_UNION_COUNT: &str = "C13:union-count-doc-not-terminated";
+const K_INTER_COUNT: &str = "C13:intersection-dense-count-doc-not-terminated";
+
+// ------------------------------------------------------------------------------------------
+// leaf scorer backed by a sorted vector (transcription of tantivy's test-only VecDocSet)
+// ------------------------------------------------------------------------------------------
+struct VecScorer {
+    docs: Vec<DocId>,
+    cursor: usize,
+    score: f32,
+}
+impl DocSet for VecScorer {
+    fn advance(&mut self) -> DocId {
+        self.cursor += 1;
+        if self.cursor >= self.docs.len() {
+            self.cursor = self.docs.len();
+            return TERMINATED;
+        }
+        self.doc()
+    }
+    fn doc(&self) -> DocId {
+        if self.cursor == self.docs.len() {
+            return TERMINATED;
+        }
+        self.docs[self.cursor]
+    }
+    fn size_hint(&self) -> u32 {
+        self.docs.len() as u32
+    }
+}
+impl Scorer for VecScorer {
+    fn score(&mut self) -> f32 {
+        self.score
+    }
+}
+
+// ------------------------------------------------------------------------------------------
+// scorer trees
+// ------------------------------------------------------------------------------------------
+#[derive(Serialize, Deserialize, Clone, Debug)]
+enum T {
+    /// leaf; `kind`: 0 VecScorer, 1 ConstScorer<VecScorer>, 2 ConstScorer<BitSetDocSet>,
+    /// 3 AllScorer (docs = 0..n, score 1), 4 EmptyScorer (docs = [])
+    Leaf { docs: Vec<u32>, score: u32, kind: u8 },
+    BUnion { sum: bool, cs: Vec<T>, num_docs: u32 },
+    Inter { cs: Vec<T>, num_docs: u32 },
+    Excl { u: Box<T>, es: Vec<T>, single: bool },
+    ReqOpt { sum: bool, req: Box<T>, opt: Box<T> },
+}
+
+fn merge(a: &[u32], b: &[u32]) -> Vec<u32> {
+    let s: BTreeSet<u32> = a.iter().chain(b.iter()).cloned().collect();
+    s.into_iter().collect()
+}
+
+impl T {
+    fn docs(&self) -> Vec<u32> {
+        match self {
+            T::Leaf { docs, .. } => docs.clone(),
+            T::BUnion { cs, .. } => cs.iter().fold(vec![], |acc, c| merge(&acc, &c.docs())),
+            T::Inter { cs, .. } => {
+                let mut it = cs.iter();
+                let mut acc = it.next().map(|c| c.docs()).unwrap_or_default();
+                for c in it {
+                    let d: BTreeSet<u32> = c.docs().into_iter().collect();
+                    acc.retain(|x| d.contains(x));
+                }
+                acc
+            }
+            T::Excl { u, es, .. } => {
+                let mut acc = u.docs();
+                for e in es {
+                    let d: BTreeSet<u32> = e.docs().into_iter().collect();
+                    acc.retain(|x| !d.contains(x));
+                }
+                acc
+            }
+            T::ReqOpt { req, .. } => req.docs(),
+        }
+    }
+    /// brute-force score of document `d` (None: not a member)
+    fn score_at(&self, d: u32) -> Option<u32> {
+        match self {
+            T::Leaf { docs, score, .. } => docs.binary_search(&d).ok().map(|_| *score),
+            T::BUnion { sum, cs, .. } => {
+                let v: Vec<u32> = cs.iter().filter_map(|c| c.score_at(d)).collect();
+                if v.is_empty() { None } else if *sum { Some(v.iter().sum()) } else { Some(1) }
+            }
+            T::Inter { cs, .. } => {
+                let v: Vec<Option<u32>> = cs.iter().map(|c| c.score_at(d)).collect();
+                if v.iter().all(|x| x.is_some()) { Some(v.iter().map(|x| x.unwrap()).sum()) } else { None }
+            }
+            T::Excl { u, es, .. } => {
+                if es.iter().any(|e| e.score_at(d).is_some()) { None } else { u.score_at(d) }
+            }
+            T::ReqOpt { sum, req, opt } => req.score_at(d).map(|r| if *sum { r + opt.score_at(d).unwrap_or(0) } else { 1 }),
+        }
+    }
+    fn depth(&self) -> usize {
+        match self {
+            T::Leaf { .. } => 0,
+            T::BUnion { cs, .. } | T::Inter { cs, .. } => 1 + cs.iter().map(|c| c.depth()).max().unwrap_or(0),
+            T::Excl { u, es, .. } => 1 + u.depth().max(es.iter().map(|c| c.depth()).max().unwrap_or(0)),
+            T::ReqOpt { req, opt, .. } => 1 + req.depth().max(opt.depth()),
+        }
+    }
+    fn top(&self) -> &'static str {
+        match self {
+            T::Leaf { kind, .. } => match kind { 0 => "vec", 1 => "const-vec", 2 => "bitset", 3 => "all", _ => "empty" },
+            T::BUnion { sum: true, .. } => "bunion-sum",
+            T::BUnion { .. } => "bunion",
+            T::Inter { .. } => "inter",
+            T::Excl { .. } => "excl",
+            T::ReqOpt { .. } => "reqopt",
+        }
+    }
+    fn has_nested_bunion_in_bunion(&self) -> bool {
+        match self {
+            T::Leaf { .. } => false,
+            T::BUnion { cs, .. } => cs.iter().any(|c| matches!(c, T::BUnion { .. }) || c.has_nested_bunion_in_bunion()),
+            T::Inter { cs, .. } => cs.iter().any(|c| c.has_nested_bunion_in_bunion()),
+            T::Excl { u, es, .. } => u.has_nested_bunion_in_bunion() || es.iter().any(|c| c.has_nested_bunion_in_bunion()),
+            T::ReqOpt { req, opt, .. } => req.has_nested_bunion_in_bunion() || opt.has_nested_bunion_in_bunion(),
+        }
+    }
+}
+
+impl T {
+    fn has_bunion(&self) -> bool {
+        match self {
+            T::Leaf { .. } => false,
+            T::BUnion { .. } => true,
+            T::Inter { cs, .. } => cs.iter().any(|c| c.has_bunion()),
+            T::Excl { u, es, .. } => u.has_bunion() || es.iter().any(|c| c.has_bunion()),
+            T::ReqOpt { req, opt, .. } => req.has_bunion() || opt.has_bunion(),
+        }
+    }
+    fn has_bitset(&self) -> bool {
+        match self {
+            T::Leaf { kind, .. } => *kind == 2,
+            T::BUnion { cs, .. } | T::Inter { cs, .. } => cs.iter().any(|c| c.has_bitset()),
+            T::Excl { u, es, .. } => u.has_bitset() || es.iter().any(|c| c.has_bitset()),
+            T::ReqOpt { req, opt, .. } => req.has_bitset() || opt.has_bitset(),
+        }
+    }
+    /// the same tree with BitSetDocSet leaves replaced by vector leaves
+    fn without_bitset(&self) -> T {
+        match self {
+            T::Leaf { docs, score, kind } => T::Leaf { docs: docs.clone(), score: *score, kind: if *kind == 2 { 1 } else { *kind } },
+            T::BUnion { sum, cs, num_docs } => T::BUnion { sum: *sum, cs: cs.iter().map(|c| c.without_bitset()).collect(), num_docs: *num_docs },
+            T::Inter { cs, num_docs } => T::Inter { cs: cs.iter().map(|c| c.without_bitset()).collect(), num_docs: *num_docs },
+            T::Excl { u, es, single } => T::Excl { u: Box::new(u.without_bitset()), es: es.iter().map(|c| c.without_bitset()).collect(), single: *single },
+            T::ReqOpt { sum, req, opt } => T::ReqOpt { sum: *sum, req: Box::new(req.without_bitset()), opt: Box::new(opt.without_bitset()) },
+        }
+    }
+    /// the same document sets with buffered unions nested directly in buffered unions flattened
+    fn flatten_unions(&self) -> T {
+        match self {
+            T::Leaf { .. } => self.clone(),
+            T::BUnion { sum, cs, num_docs } => {
+                let mut out = vec![];
+                for c in cs {
+                    match c.flatten_unions() {
+                        T::BUnion { cs: inner, .. } => out.extend(inner),
+                        other => out.push(other),
+                    }
+                }
+                T::BUnion { sum: *sum, cs: out, num_docs: *num_docs }
+            }
+            T::Inter { cs, num_docs } => T::Inter { cs: cs.iter().map(|c| c.flatten_unions()).collect(), num_docs: *num_docs },
+            T::Excl { u, es, single } => T::Excl { u: Box::new(u.flatten_unions()), es: es.iter().map(|c| c.flatten_unions()).collect(), single: *single },
+            T::ReqOpt { sum, req, opt } => T::ReqOpt { sum: *sum, req: Box::new(req.flatten_unions()), opt: Box::new(opt.flatten_unions()) },
+        }
+    }
+}
+
+struct Built {
+    scorer: Box<dyn Scorer>,
+    /// the tree in the model's prefix notation (children of intersections in cost order)
+    model: String,
+    /// dense branch taken by `Intersection::count_including_deleted` if this is an intersection
+    dense: bool,
+}
+
+fn build(t: &T) -> Built {
+    match t {
+        T::Leaf { docs, score, kind } => {
+            let sc = *score as f32;
+            let scorer: Box<dyn Scorer> = match kind {
+                0 => Box::new(VecScorer { docs: docs.clone(), cursor: 0, score: sc }),
+                1 => Box::new(ConstScorer::new(VecScorer { docs: docs.clone(), cursor: 0, score: 77.0 }, sc)),
+                2 => {
+                    let max = docs.last().map(|d| d + 1).unwrap_or(1) + (*score % 3) * 40;
+                    let mut bs = BitSet::with_max_value(max);
+                    for d in docs {
+                        bs.insert(*d);
+                    }
+                    Box::new(ConstScorer::new(BitSetDocSet::from(bs), sc))
+                }
+                3 => Box::new(AllScorer::new(docs.len() as u32)),
+                _ => Box::new(EmptyScorer),
+            };
+            Built { scorer, model: format!("v;{};{}", crate::model::nat_list(docs), score), dense: false }
+        }
+        T::BUnion { sum, cs, num_docs } => {
+            let bs: Vec<Built> = cs.iter().map(build).collect();
+            let model = format!("bu;{};{};{}", *sum as u8, bs.len(), bs.iter().map(|b| b.model.clone()).collect::<Vec<_>>().join(";"));
+            let children: Vec<Box<dyn Scorer>> = bs.into_iter().map(|b| b.scorer).collect();
+            let scorer = if *sum {
+                tantivy::verif::c13_buffered_union_sum(children, *num_docs)
+            } else {
+                tantivy::verif::c13_buffered_union_do_nothing(children, *num_docs)
+            };
+            Built { scorer, model, dense: false }
+        }
+        T::Inter { cs, num_docs } => {
+            let mut bs: Vec<Built> = cs.iter().map(build).collect();
+            // same stable sort as `intersect_scorers`
+            bs.sort_by_key(|b| b.scorer.cost());
+            let dense = !(bs[0].scorer.size_hint().saturating_mul(32) < *num_docs);
+            let model = format!("in;{};{};{}", dense as u8, bs.len(), bs.iter().map(|b| b.model.clone()).collect::<Vec<_>>().join(";"));
+            let children: Vec<Box<dyn Scorer>> = bs.into_iter().map(|b| b.scorer).collect();
+            Built { scorer: tantivy::query::intersect_scorers(children, *num_docs), model, dense }
+        }
+        T::Excl { u, es, single } => {
+            let bu = build(u);
+            let bes: Vec<Built> = es.iter().map(build).collect();
+            let model = format!("ex;{};{};{}", bes.len(), bu.model, bes.iter().map(|b| b.model.clone()).collect::<Vec<_>>().join(";"));
+            let mut excl: Vec<Box<dyn Scorer>> = bes.into_iter().map(|b| b.scorer).collect();
+            let scorer: Box<dyn Scorer> = if *single && excl.len() == 1 {
+                Box::new(Exclude::new(bu.scorer, excl.pop().unwrap()))
+            } else {
+                Box::new(Exclude::new(bu.scorer, excl))
+            };
+            Built { scorer, model, dense: false }
+        }
+        T::ReqOpt { sum, req, opt } => {
+            let br = build(req);
+            let bo = build(opt);
+            let model = format!("ro;{};{};{}", *sum as u8, br.model, bo.model);
+            let scorer: Box<dyn Scorer> = if *sum {
+                Box::new(RequiredOptionalScorer::<Box<dyn Scorer>, Box<dyn Scorer>, SumCombiner>::new(br.scorer, bo.scorer))
+            } else {
+                tantivy::verif::c13_reqopt_do_nothing(br.scorer, bo.scorer)
+            };
+            Built { scorer, model, dense: false }
+        }
+    }
+}
+
+// ------------------------------------------------------------------------------------------
+// generators
+// ------------------------------------------------------------------------------------------
+fn gen_docs(rng: &mut Rng, max_doc: u32) -> Vec<u32> {
+    let mut s: BTreeSet<u32> = BTreeSet::new();
+    let style = rng.below(10);
+    match style {
+        0 => {}
+        1 => {
+            s.insert(rng.below(max_doc as u64) as u32);
+        }
+        2 => {
+            // dense run crossing block / window ends
+            let start = *rng.pick(&[0u32, 100, 127, 4000, 4095, 4096, 8100]) % max_doc;
+            let len = *rng.pick(&[1u32, 63, 64, 65, 127, 128, 129, 300, 1100]);
+            for d in start..(start + len).min(max_doc) {
+                s.insert(d);
+            }
+        }
+        3 | 4 => {
+            // clusters around window ends
+            for k in 0..4u32 {
+                let c = k * HORIZON + rng.below(3) as u32 * 64;
+                for _ in 0..rng.below(12) {
+                    let d = (c as i64 + rng.below(9) as i64 - 4).max(0) as u32;
+                    if d < max_doc {
+                        s.insert(d);
+                    }
+                }
+            }
+            for _ in 0..rng.below(20) {
+                s.insert(rng.below(max_doc as u64) as u32);
+            }
+        }
+        _ => {
+            let n = *rng.pick(&[2u64, 5, 20, 64, 65, 129, 400]);
+            for _ in 0..n {
+                s.insert(rng.below(max_doc as u64) as u32);
+            }
+        }
+    }
+    if rng.chance(1, 25) {
+        // ids just below the end marker
+        s.insert(TERMINATED - 1 - rng.below(3) as u32);
+    }
+    s.into_iter().collect()
+}
+
+fn gen_leaf(rng: &mut Rng, max_doc: u32, pool: &[Vec<u32>]) -> T {
+    let score = 1 + rng.below(7) as u32;
+    // share documents with earlier leaves so that intersections are not empty
+    let mut docs = if !pool.is_empty() && rng.chance(1, 2) {
+        let base = rng.pick(pool).clone();
+        let extra = gen_docs(rng, max_doc);
+        let keep: Vec<u32> = base.into_iter().filter(|_| rng.chance(2, 3)).collect();
+        merge(&keep, &extra)
+    } else {
+        gen_docs(rng, max_doc)
+    };
+    let kind = match rng.below(12) {
+        0..=5 => 0,
+        6 | 7 => 1,
+        8 | 9 => 2,
+        10 => 3,
+        _ => 4,
+    };
+    if kind == 2 {
+        docs.retain(|d| *d < 100_000);
+    }
+    if kind == 3 {
+        let n = *rng.pick(&[1u32, 2, 64, 65, 200, 4097]);
+        return T::Leaf { docs: (0..n).collect(), score: 1, kind };
+    }
+    if kind == 4 {
+        return T::Leaf { docs: vec![], score: 0, kind };
+    }
+    T::Leaf { docs, score, kind }
+}
+
+fn gen_tree(rng: &mut Rng, depth: usize, max_doc: u32, pool: &mut Vec<Vec<u32>>) -> T {
+    if depth == 0 || rng.chance(1, 5) {
+        let l = gen_leaf(rng, max_doc, pool);
+        if let T::Leaf { docs, .. } = &l {
+            pool.push(docs.clone());
+        }
+        return l;
+    }
+    let num_docs = *rng.pick(&[1u32, max_doc + 1, 1_000_000]);
+    match rng.below(10) {
+        0..=3 => {
+            let n = *rng.pick(&[1usize, 2, 2, 3, 4]);
+            T::BUnion { sum: rng.chance(2, 3), cs: (0..n).map(|_| gen_tree(rng, depth - 1, max_doc, pool)).collect(), num_docs }
+        }
+        4..=6 => {
+            let n = *rng.pick(&[2usize, 2, 3, 4]);
+            T::Inter { cs: (0..n).map(|_| gen_tree(rng, depth - 1, max_doc, pool)).collect(), num_docs }
+        }
+        7 | 8 => {
+            let n = *rng.pick(&[1usize, 1, 2, 3]);
+            T::Excl {
+                u: Box::new(gen_tree(rng, depth - 1, max_doc, pool)),
+                es: (0..n).map(|_| gen_tree(rng, depth - 1, max_doc, pool)).collect(),
+                single: rng.chance(1, 2),
+            }
+        }
+        _ => T::ReqOpt {
+            sum: rng.chance(2, 3),
+            req: Box::new(gen_tree(rng, depth - 1, max_doc, pool)),
+            opt: Box::new(gen_tree(rng, depth - 1, max_doc, pool)),
+        },
+    }
+}
+
+#[derive(Clone, Debug, PartialEq)]
+enum Call {
+    Doc,
+    Adv,
+    Seek(u32),
+    Danger(u32),
+    Fill,
+    Bits(u32),
+    Count,
+    Score,
+}
+
+impl Call {
+    fn text(&self) -> String {
+        match self {
+            Call::Doc => "d".into(),
+            Call::Adv => "a".into(),
+            Call::Seek(t) => format!("s{t}"),
+            Call::Danger(t) => format!("k{t}"),
+            Call::Fill => "f".into(),
+            Call::Bits(m) => format!("b{m}"),
+            Call::Count => "c".into(),
+            Call::Score => "x".into(),
+        }
+    }
+    fn parse(s: &str) -> Option<Call> {
+        let (h, r) = s.split_at(1);
+        Some(match h {
+            "d" => Call::Doc,
+            "a" => Call::Adv,
+            "f" => Call::Fill,
+            "c" => Call::Count,
+            "x" => Call::Score,
+            "s" => Call::Seek(r.parse().ok()?),
+            "k" => Call::Danger(r.parse().ok()?),
+            "b" => Call::Bits(r.parse().ok()?),
+            _ => return None,
+        })
+    }
+}
+
+/// specification cursor (harness side): position in the full sorted list + danger marker
+struct Cursor<'a> {
+    all: &'a [u32],
+    pos: usize,
+    danger: Option<u32>,
+    counted: bool,
+}
+impl<'a> Cursor<'a> {
+    fn doc(&self) -> u32 {
+        self.all.get(self.pos).cloned().unwrap_or(TERMINATED)
+    }
+    fn seek(&mut self, t: u32) {
+        while self.pos < self.all.len() && self.all[self.pos] < t {
+            self.pos += 1;
+        }
+    }
+    /// expected observation of `call` (in the model's output syntax; `k` misses only `L`), and
+    /// the state change
+    fn step(&mut self, call: &Call) -> String {
+        match call {
+            Call::Doc => self.doc().to_string(),
+            Call::Adv => {
+                if self.pos < self.all.len() {
+                    self.pos += 1;
+                }
+                self.doc().to_string()
+            }
+            Call::Seek(t) => {
+                self.seek(*t);
+                self.danger = None;
+                self.doc().to_string()
+            }
+            Call::Danger(t) => {
+                self.seek(*t);
+                if self.doc() == *t && *t != TERMINATED {
+                    self.danger = None;
+                    "F".into()
+                } else {
+                    self.danger = Some(*t);
+                    "L".into()
+                }
+            }
+            Call::Fill => {
+                let end = (self.pos + COLLECT_BLOCK_BUFFER_LEN).min(self.all.len());
+                let out = crate::model::nat_list(&self.all[self.pos..end]);
+                self.pos = end;
+                format!("f:{out}")
+            }
+            Call::Bits(m) => {
+                self.seek(*m);
+                let start = self.pos;
+                self.seek(*m + BLOCK_WINDOW);
+                format!("b:{}:{}", crate::model::nat_list(&self.all[start..self.pos]), self.doc())
+            }
+            Call::Count => {
+                let n = self.all.len() - self.pos;
+                self.pos = self.all.len();
+                self.counted = true;
+                format!("c:{n}")
+            }
+            Call::Score => "x".into(),
+        }
+    }
+}
+
+fn gen_target(rng: &mut Rng, cur: &Cursor, lo: u32) -> u32 {
+    let all = cur.all;
+    let first = all.first().cloned().unwrap_or(0);
+    let t = match rng.below(14) {
+        0 => lo,
+        1 => lo.saturating_add(1),
+        2 | 3 => {
+            // a member ahead
+            if cur.pos < all.len() { let w = 1 + rng.usize_below(200); all[cur.pos + rng.usize_below((all.len() - cur.pos).min(w))] } else { lo }
+        }
+        4 => {
+            let m = if cur.pos < all.len() { all[cur.pos + rng.usize_below(all.len() - cur.pos)] } else { lo };
+            if rng.chance(1, 2) { m.saturating_add(1) } else { m.saturating_sub(1) }
+        }
+        5 => (lo / 128 + 1) * 128 - rng.below(2) as u32,
+        6 | 7 => {
+            // window ends relative to plausible window starts
+            let ws = *rng.pick(&[lo, first, cur.doc()]);
+            let k = 1 + rng.below(3) as u32;
+            (ws.saturating_add(k * HORIZON) as i64 + rng.below(3) as i64 - 1) as u32
+        }
+        8 => lo.saturating_add(HORIZON - 1 + rng.below(3) as u32),
+        9 => TERMINATED - 1,
+        10 => TERMINATED,
+        11 => lo.saturating_add(rng.below(70) as u32),
+        _ => {
+            let hi = all.last().cloned().unwrap_or(10).saturating_add(10).min(TERMINATED);
+            if hi > lo { lo + rng.below((hi - lo) as u64 + 1) as u32 } else { lo }
+        }
+    };
+    t.max(lo).min(TERMINATED)
+}
+
+/// a legal program for a set whose full document list is `all`
+fn gen_program(rng: &mut Rng, all: &[u32], want_scores: bool) -> Vec<Call> {
+    let mut cur = Cursor { all, pos: 0, danger: None, counted: false };
+    let mut prog = vec![];
+    let maxlen = *rng.pick(&[4usize, 12, 30, 60]);
+    let len = 1 + rng.usize_below(maxlen);
+    let fill_heavy = rng.chance(1, 6);
+    while prog.len() < len {
+        let call = if let Some(t0) = cur.danger {
+            if t0 >= TERMINATED {
+                break;
+            }
+            // only seek_danger with a larger target is legal now
+            let next_member = all.iter().cloned().find(|d| *d > t0);
+            let t = match (rng.below(4), next_member) {
+                (0 | 1, Some(m)) => m,
+                (2, Some(m)) if m > t0 + 1 => t0 + 1 + rng.below((m - t0 - 1) as u64) as u32,
+                (3, _) => gen_target(rng, &cur, t0 + 1),
+                (_, Some(m)) => m,
+                (_, None) => if rng.chance(1, 2) { TERMINATED } else { gen_target(rng, &cur, t0 + 1) },
+            };
+            Call::Danger(t.max(t0 + 1).min(TERMINATED))
+        } else {
+            let r = rng.below(if fill_heavy { 30 } else { 22 });
+            match r {
+                0..=4 => Call::Adv,
+                5..=8 => Call::Seek(gen_target(rng, &cur, cur.doc())),
+                9 | 10 => Call::Danger(gen_target(rng, &cur, cur.doc())),
+                11 => Call::Seek(cur.doc()),
+                12 => Call::Doc,
+                13 | 14 => {
+                    if want_scores && cur.doc() != TERMINATED { Call::Score } else { Call::Adv }
+                }
+                15 => {
+                    let lo = cur.doc();
+                    if lo.saturating_add(BLOCK_WINDOW) <= TERMINATED {
+                        let m = gen_target(rng, &cur, lo);
+                        if m.saturating_add(BLOCK_WINDOW) <= TERMINATED { Call::Bits(m) } else { Call::Bits(lo) }
+                    } else {
+                        Call::Adv
+                    }
+                }
+                16 => {
+                    if rng.chance(1, 3) || prog.len() + 1 >= len { Call::Count } else { Call::Adv }
+                }
+                _ => Call::Fill,
+            }
+        };
+        cur.step(&call);
+        let is_count = call == Call::Count;
+        let moved = !matches!(call, Call::Doc | Call::Score);
+        prog.push(call);
+        if is_count {
+            // the set is consumed: the end must be reported from now on
+            prog.extend([Call::Doc, Call::Adv, Call::Doc]);
+            break;
+        }
+        if moved && cur.danger.is_none() && want_scores && cur.doc() != TERMINATED && rng.chance(1, 3) {
+            prog.push(Call::Score);
+        }
+    }
+    prog
+}
+
+// ------------------------------------------------------------------------------------------
+// running a program on a real scorer
+// ------------------------------------------------------------------------------------------
+fn fmt_score(s: f32) -> String {
+    if s.fract() == 0.0 && s.abs() < 1e9 { format!("x:{}", s as i64) } else { format!("x:{s}") }
+}
+
+/// observations in the model's syntax; second component: internal inconsistencies
+/// (return value of a call ≠ `doc()` right after it)
+fn run_real(scorer: &mut dyn Scorer, prog: &[Call], obs: &mut Vec<String>, docs_after: &mut Vec<u32>, incons: &mut Vec<String>) {
+    for (i, call) in prog.iter().enumerate() {
+        let o = match call {
+            Call::Doc => scorer.doc().to_string(),
+            Call::Adv => {
+                let r = scorer.advance();
+                if r != scorer.doc() {
+                    incons.push(format!("call {i}: advance() returned {r} but doc() = {}", scorer.doc()));
+                }
+                r.to_string()
+            }
+            Call::Seek(t) => {
+                let r = scorer.seek(*t);
+                if r != scorer.doc() {
+                    incons.push(format!("call {i}: seek({t}) returned {r} but doc() = {}", scorer.doc()));
+                }
+                r.to_string()
+            }
+            Call::Danger(t) => {
+                // `SeekDangerResult` is not exported by tantivy: read it through its Debug form
+                let r = format!("{:?}", scorer.seek_danger(*t));
+                if r == "Found" {
+                    "F".to_string()
+                } else {
+                    format!("L{}", r.trim_start_matches("SeekLowerBound(").trim_end_matches(')'))
+                }
+            }
+            Call::Fill => {
+                let mut buf = [0u32; COLLECT_BLOCK_BUFFER_LEN];
+                let n = scorer.fill_buffer(&mut buf);
+                format!("f:{}", crate::model::nat_list(&buf[..n.min(COLLECT_BLOCK_BUFFER_LEN)]))
+            }
+            Call::Bits(m) => {
+                let mut mask = [TinySet::empty(); BLOCK_NUM_TINYBITSETS];
+                let next = scorer.fill_bitset_block(*m, &mut mask);
+                let mut ds = vec![];
+                for (b, ts) in mask.iter().enumerate() {
+                    for bit in ts.into_iter() {
+                        ds.push(*m + b as u32 * 64 + bit);
+                    }
+                }
+                format!("b:{}:{}", crate::model::nat_list(&ds), next)
+            }
+            Call::Count => format!("c:{}", scorer.count_including_deleted()),
+            Call::Score => fmt_score(scorer.score()),
+        };
+        obs.push(o);
+        docs_after.push(scorer.doc());
+    }
+}
+
+struct Verdicts {
+    oracle: Vec<(String, String)>,
+}
+
+/// judge the observations of one program against the specification cursor.
+/// `expected_score(d)`: score of a fresh scorer at `d` (None: unknown / not comparable)
+fn judge_oracle(
+    t_top: &str,
+    dense_inter: bool,
+    all: &[u32],
+    prog: &[Call],
+    obs: &[String],
+    docs_after: &[u32],
+    expected_score: &dyn Fn(u32) -> Option<String>,
+    score_tol: bool,
+) -> Verdicts {
+    let mut v = Verdicts { oracle: vec![] };
+    let mut cur = Cursor { all, pos: 0, danger: None, counted: false };
+    let mut fills_before = 0usize;
+    let mut moved_since_fill = true;
+    for (i, call) in prog.iter().enumerate() {
+        if i >= obs.len() {
+            break;
+        }
+        let before_doc = cur.doc();
+        let before_pos = cur.pos;
+        let exp = cur.step(call);
+        let got = &obs[i];
+        let stale_after_count = matches!(call, Call::Doc)
+            && i > 0
+            && matches!(prog[i - 1], Call::Count)
+            && v.oracle.iter().any(|(k, _)| k == K_UNION_COUNT || k == K_INTER_COUNT);
+        if stale_after_count {
+            continue;
+        }
+        match call {
+            Call::Danger(t) => {
+                if exp == "F" {
+                    if got != "F" {
+                        v.oracle.push(("C13:seek-danger-missed-member".into(), format!("call {i} seek_danger({t}): {t} is a member but got {got}")));
+                        return v;
+                    }
+                    if docs_after[i] != *t {
+                        v.oracle.push(("C13:seek-danger-found-wrong-doc".into(), format!("call {i} seek_danger({t}) = Found but doc() = {}", docs_after[i])));
+                        return v;
+                    }
+                } else {
+                    if got == "F" {
+                        v.oracle.push(("C13:seek-danger-found-non-member".into(), format!("call {i} seek_danger({t}) = Found but {t} is not a member")));
+                        return v;
+                    }
+                    let b: u32 = got[1..].parse().unwrap_or(0);
+                    let next = cur.doc(); // first member >= t (t itself is not a member)
+                    if !(b == TERMINATED || (b > *t && b <= next)) {
+                        v.oracle.push(("C13:seek-danger-bound-out-of-range".into(), format!("call {i} seek_danger({t}) = SeekLowerBound({b}); must be in ({t}, {next}] or TERMINATED")));
+                        return v;
+                    }
+                }
+            }
+            Call::Score => {
+                if let Some(e) = expected_score(before_doc) {
+                    let same = if score_tol {
+                        let (a, b): (f32, f32) = (got[2..].parse().unwrap_or(f32::NAN), e[2..].parse().unwrap_or(f32::NAN));
+                        (a - b).abs() <= 1e-5 * b.abs().max(1.0)
+                    } else {
+                        *got == e
+                    };
+                    if !same {
+                        let (a, b): (f64, f64) = (got[2..].parse().unwrap_or(f64::NAN), e[2..].parse().unwrap_or(f64::NAN));
+                        let key = if t_top == "bunion-sum" && fills_before > 0 && !moved_since_fill {
+                            K_FILL_SCORE
+                        } else if t_top == "bunion-sum" && fills_before > 0 && a > b {
+                            K_S4
+                        } else {
+                            "C13:score-path-dependent"
+                        };
+                        v.oracle.push((key.into(), format!("call {i} score() at doc {before_doc} = {} but a fresh scorer advanced to that doc gives {}", &got[2..], &e[2..])));
+                        if key == "C13:score-path-dependent" {
+                            return v;
+                        }
+                    }
+                }
+            }
+            _ => {
+                if *got != exp {
+                    v.oracle.push(("C13:sequence-deviates".into(), format!("call {i} {}: expected {exp}, got {got} (document before the call: {before_doc})", call.text())));
+                    return v;
+                }
+            }
+        }
+        if matches!(call, Call::Fill) {
+            fills_before += 1;
+            moved_since_fill = false;
+        } else if cur.pos != before_pos {
+            moved_since_fill = true;
+        }
+        // doc() after the call
+        if cur.danger.is_none() && docs_after[i] != cur.doc() {
+            if matches!(call, Call::Count) {
+                let key = match (t_top, dense_inter) {
+                    ("bunion-sum" | "bunion", _) => K_UNION_COUNT,
+                    ("inter", true) => K_INTER_COUNT,
+                    _ => "C13:count-doc-not-terminated",
+                };
+                v.oracle.push((key.into(), format!("after count_including_deleted() doc() = {} instead of TERMINATED", docs_after[i])));
+                if key == "C13:count-doc-not-terminated" {
+                    return v;
+                }
+                // the stale doc() persists until the next move; skip the `doc` call that follows
+                continue;
+            }
+            v.oracle.push(("C13:doc-after-call-deviates".into(), format!("after call {i} {}: doc() = {}, expected {}", call.text(), docs_after[i], cur.doc())));
+            return v;
+        }
+    }
+    v
+}
+
+fn prog_text(prog: &[Call]) -> String {
+    if prog.is_empty() { "-".into() } else { prog.iter().map(|c| c.text()).collect::<Vec<_>>().join(";") }
+}
+
+fn fresh_scores(t: &T) -> Result<(Vec<u32>, Vec<f32>), String> {
+    catch_unwind(AssertUnwindSafe(|| {
+        let mut b = build(t);
+        let mut docs = vec![];
+        let mut scores = vec![];
+        let mut d = b.scorer.doc();
+        let mut guard = 0u64;
+        while d != TERMINATED && guard < 50_000_000 {
+            docs.push(d);
+            scores.push(b.scorer.score());
+            d = b.scorer.advance();
+            guard += 1;
+        }
+        (docs, scores)
+    }))
+    .map_err(|_| format!("panic while advancing a fresh scorer: {}", last_panic()))
+}
+
+/// document-sequence verdicts of `prog` on the real scorer built from `t` (scores ignored);
+/// `None`: panic. Used for counterfactual attribution of known findings.
+fn sequence_verdicts(t: &T, prog: &[Call]) -> Option<Vec<(String, String)>> {
+    let all = t.docs();
+    let mut obs = vec![];
+    let mut docs_after = vec![];
+    let mut incons = vec![];
+    let mut dense = false;
+    let fresh_ok = catch_unwind(AssertUnwindSafe(|| {
+        let mut b = build(t);
+        let mut docs = vec![];
+        let mut d = b.scorer.doc();
+        while d != TERMINATED {
+            docs.push(d);
+            d = b.scorer.advance();
+        }
+        docs
+    }));
+    match fresh_ok {
+        Ok(d) if d == all => {}
+        Ok(_) => return Some(vec![("C13:advance-sequence-wrong".into(), String::new())]),
+        Err(_) => return None,
+    }
+    let res = catch_unwind(AssertUnwindSafe(|| {
+        let mut b = build(t);
+        dense = b.dense;
+        run_real(b.scorer.as_mut(), prog, &mut obs, &mut docs_after, &mut incons);
+    }));
+    if res.is_err() {
+        return None;
+    }
+    let v = judge_oracle(t.top(), dense, &all, prog, &obs, &docs_after, &|_| None, false);
+    Some(v.oracle)
+}
+
+const KNOWN_KEYS: [&str; 6] = [K_S4, K_FILL_SCORE, K_UNION_COUNT, K_INTER_COUNT, K_BITSET, K_NESTED_UNION];
+
+/// attribute a document-sequence deviation to a known finding iff it disappears when exactly the
+/// construct named by the finding is replaced by an equivalent one
+fn attribute(t: &T, prog: &[Call], obs: &[String], key: &str, what: &str) -> String {
+    let seq_keys = ["C13:sequence-deviates", "C13:doc-after-call-deviates", "C13:seek-danger-bound-out-of-range", "C13:seek-danger-missed-member",
+        "C13:seek-danger-found-non-member", "C13:seek-danger-found-wrong-doc", "C13:advance-sequence-wrong", "C13:return-differs-from-doc"];
+    if !seq_keys.contains(&key) {
+        return key.to_string();
+    }
+    // the same defect without nesting: a seek_danger miss moved the union's window forward and the
+    // next (legal, larger) target is still below the returned bound, i.e. below the new window start
+    if key == "C13:seek-danger-bound-out-of-range" && t.has_bunion() {
+        let i: usize = what.strip_prefix("call ").and_then(|r| r.split(' ').next()).and_then(|x| x.parse().ok()).unwrap_or(0);
+        if i >= 1 && i < prog.len() {
+            if let (Call::Danger(t2), Call::Danger(_), Some(prev)) = (&prog[i], &prog[i - 1], obs.get(i - 1)) {
+                if let Some(b1) = prev.strip_prefix('L').and_then(|x| x.parse::<u32>().ok()) {
+                    if b1 > *t2 && b1 != TERMINATED {
+                        return K_NESTED_UNION.to_string();
+                    }
+                }
+            }
+        }
+    }
+    let clean = |vs: Option<Vec<(String, String)>>| vs.map(|v| v.iter().all(|(k, _)| KNOWN_KEYS.contains(&k.as_str()) && k != K_BITSET && k != K_NESTED_UNION)).unwrap_or(false);
+    if t.has_bitset() && what.contains("expected 2147483647") && clean(sequence_verdicts(&t.without_bitset(), prog)) {
+        return K_BITSET.to_string();
+    }
+    if t.has_nested_bunion_in_bunion() && clean(sequence_verdicts(&t.flatten_unions(), prog)) {
+        return K_NESTED_UNION.to_string();
+    }
+    key.to_string()
+}
+
+/// one direct case; returns true if something was reported
+fn check_direct(ctx: &mut Ctx, t: &T, prog: &[Call], label: &str) -> bool {
+    let case = json!({"kind": "direct", "tree": t, "prog": prog.iter().map(|c| c.text()).collect::<Vec<_>>()});
+    let all = t.docs();
+    let ptext = prog_text(prog);
+    let top = t.top();
+    ctx.report.count(&format!("top:{top}"));
+    ctx.report.count(&format!("depth:{}", t.depth()));
+    for c in prog {
+        ctx.report.count(&format!("call:{}", &c.text()[..1]));
+        match c {
+            Call::Seek(x) | Call::Danger(x) | Call::Bits(x) => {
+                if *x == TERMINATED { ctx.report.count("target:TERMINATED") }
+                else if *x == TERMINATED - 1 { ctx.report.count("target:TERMINATED-1") }
+                else if x % 128 == 127 || x % 128 == 0 { ctx.report.count("target:block-end") }
+                else if all.first().map(|f| { let g = x.wrapping_sub(*f) % HORIZON; g <= 1 || g == HORIZON - 1 }).unwrap_or(false) { ctx.report.count("target:window-end") }
+                else if all.binary_search(x).is_ok() { ctx.report.count("target:member") }
+                else { ctx.report.count("target:other") }
+            }
+            _ => {}
+        }
+    }
+    let nontrivial = all.len() >= 2 && prog.len() >= 3 && prog.iter().any(|c| matches!(c, Call::Seek(_) | Call::Danger(_) | Call::Fill | Call::Bits(_)));
+    ctx.report.case(&format!("{label}|{}|{ptext}", serde_json::to_string(t).unwrap()), nontrivial);
+
+    // fresh scorer by plain advance: the implementation's own sequence and scores
+    let (fdocs, fscores) = match fresh_scores(t) {
+        Ok(x) => x,
+        Err(e) => {
+            ctx.report.violation("oracle", "C13:panic", e, case);
+            return true;
+        }
+    };
+    if fdocs != all {
+        let i = fdocs.iter().zip(all.iter()).position(|(a, b)| a != b).unwrap_or(fdocs.len().min(all.len()));
+        let key = attribute(t, &[], &[], "C13:advance-sequence-wrong", "");
+        ctx.report.violation("oracle", &key, format!("{top}: plain advance enumerates {} docs, brute force {}; first difference at index {i}: {:?} vs {:?}", fdocs.len(), all.len(), fdocs.get(i), all.get(i)), case);
+        return true;
+    }
+    for (d, s) in fdocs.iter().zip(fscores.iter()) {
+        let e = t.score_at(*d).unwrap_or(0) as f32;
+        if *s != e {
+            ctx.report.violation("oracle", "C13:advance-score-wrong", format!("{top}: fresh scorer advanced to {d} scores {s}, brute force {e}"), case);
+            return true;
+        }
+    }
+    // the program on the real scorer
+    let mut obs = vec![];
+    let mut docs_after = vec![];
+    let mut incons = vec![];
+    let mut dense = false;
+    let res = catch_unwind(AssertUnwindSafe(|| {
+        let mut b = build(t);
+        dense = b.dense;
+        let model = b.model.clone();
+        run_real(b.scorer.as_mut(), prog, &mut obs, &mut docs_after, &mut incons);
+        model
+    }));
+    let mut reported = false;
+    let model_tree = match res {
+        Ok(m) => Some(m),
+        Err(_) => {
+            ctx.report.violation("oracle", "C13:panic", format!("{top}: panic at call {} ({}) of a legal program: {}", obs.len(), prog.get(obs.len()).map(|c| c.text()).unwrap_or_default(), last_panic()), case.clone());
+            reported = true;
+            None
+        }
+    };
+    if let Some(x) = incons.first() {
+        ctx.report.violation("oracle", "C13:return-differs-from-doc", format!("{top}: {x}"), case.clone());
+        reported = true;
+    }
+    let score_of = |d: u32| -> Option<String> { fdocs.binary_search(&d).ok().map(|i| fmt_score(fscores[i])) };
+    let v = judge_oracle(top, dense, &all, prog, &obs, &docs_after, &score_of, false);
+    let mut new_oracle = false;
+    let mut bitset_finding = false;
+    for (key, what) in &v.oracle {
+        let key = attribute(t, prog, &obs, key, what);
+        bitset_finding |= key == K_BITSET;
+        if !KNOWN_KEYS.contains(&key.as_str()) {
+            new_oracle = true;
+        }
+        ctx.report.violation("oracle", &key, format!("{top}: {what}"), case.clone());
+        reported = true;
+    }
+    // correspondence with the Lean implementation-level model, call by call
+    if let Some(tree) = model_tree {
+        let resp = ctx.model.ask(&format!("C13 run {tree} {ptext}"));
+        let mobs: Vec<&str> = if prog.is_empty() { vec![] } else { resp.split(';').collect() };
+        if resp == "bad-op" || mobs.len() != prog.len() {
+            ctx.report.violation("model", "C13:model-rejects-case", format!("model answered {} for a generated case", &resp[..resp.len().min(60)]), case.clone());
+            return true;
+        }
+        for i in 0..obs.len() {
+            if obs[i] != mobs[i] {
+                // a disagreement already explained by a new oracle violation at or before this call is
+                // reported once, as the oracle violation
+                // (the model's leaf is the lawful vector contract, which is what BitSetDocSet breaks)
+                if !new_oracle && !bitset_finding {
+                    ctx.report.violation("model", "C13:model-mismatch", format!("{top}: call {i} {}: real {} vs model {}", prog[i].text(), obs[i], mobs[i]), case.clone());
+                    reported = true;
+                }
+                break;
+            }
+        }
+    }
+    reported
+}
+
+// ------------------------------------------------------------------------------------------
+// (b) real queries
+// ------------------------------------------------------------------------------------------
+#[derive(Serialize, Deserialize, Clone, Debug)]
+enum Q {
+    Term(String),
+    All,
+    Phrase(Vec<String>, u32),
+    PhrasePrefix(Vec<String>),
+    Range(u64, u64),
+    Bool(Vec<(u8, Q)>, usize),
+    Boost(Box<Q>, u32),
+    Const(Box<Q>, u32),
+}
+
+#[derive(Serialize, Deserialize, Clone, Debug)]
+struct IndexSpec {
+    n: u32,
+    seed: u64,
+}
+
+const WORDS: [&str; 6] = ["a", "b", "c", "d", "e", "rare"];
+
+fn doc_text(spec: &IndexSpec, i: u32) -> String {
+    let mut r = Rng::new(spec.seed ^ (i as u64).wrapping_mul(0x9E37_79B9));
+    let len = 1 + r.usize_below(6);
+    let mut ws = vec![];
+    for _ in 0..len {
+        let w = match r.below(20) {
+            0..=6 => "a",
+            7..=11 => "b",
+            12..=14 => "c",
+            15..=16 => "d",
+            17..=18 => "e",
+            _ => if i % 97 == 0 { "rare" } else { "e" },
+        };
+        ws.push(w);
+    }
+    // long runs where a term is in every doc / in none (block and window ends)
+    if (4000..4200).contains(&i) || i % 4096 < 3 {
+        ws.push("a");
+        ws.push("b");
+    }
+    if (1000..1400).contains(&i) {
+        ws.retain(|w| *w != "a");
+        if ws.is_empty() {
+            ws.push("c");
+        }
+    }
+    ws.join(" ")
+}
+
+fn build_index(spec: &IndexSpec) -> (Index, tantivy::schema::Field, tantivy::schema::Field) {
+    let mut sb = Schema::builder();
+    let text = sb.add_text_field("t", TEXT);
+    let num = sb.add_u64_field("n", FAST | INDEXED);
+    let index = Index::create_in_ram(sb.build());
+    let mut w: IndexWriter = index.writer_with_num_threads(1, 50_000_000).unwrap();
+    for i in 0..spec.n {
+        w.add_document(doc!(text => doc_text(spec, i), num => (i % 1000) as u64)).unwrap();
+    }
+    w.commit().unwrap();
+    drop(w);
+    (index, text, num)
+}
+
+fn make_query(q: &Q, text: tantivy::schema::Field) -> Box<dyn Query> {
+    match q {
+        Q::Term(w) => Box::new(TermQuery::new(Term::from_field_text(text, w), IndexRecordOption::WithFreqs)),
+        Q::All => Box::new(AllQuery),
+        Q::Phrase(ws, slop) => {
+            let mut p = PhraseQuery::new(ws.iter().map(|w| Term::from_field_text(text, w)).collect());
+            p.set_slop(*slop);
+            Box::new(p)
+        }
+        Q::PhrasePrefix(ws) => Box::new(PhrasePrefixQuery::new(ws.iter().map(|w| Term::from_field_text(text, w)).collect())),
+        Q::Range(lo, hi) => Box::new(RangeQuery::new(
+            std::ops::Bound::Included(Term::from_field_u64(tantivy::schema::Field::from_field_id(1), *lo)),
+            std::ops::Bound::Included(Term::from_field_u64(tantivy::schema::Field::from_field_id(1), *hi)),
+        )),
+        Q::Bool(cs, msm) => {
+            let clauses: Vec<(Occur, Box<dyn Query>)> = cs
+                .iter()
+                .map(|(o, q)| (match o { 0 => Occur::Must, 1 => Occur::Should, _ => Occur::MustNot }, make_query(q, text)))
+                .collect();
+            if *msm > 0 { Box::new(BooleanQuery::with_minimum_required_clauses(clauses, *msm)) } else { Box::new(BooleanQuery::new(clauses)) }
+        }
+        Q::Boost(q, b) => Box::new(BoostQuery::new(make_query(q, text), *b as f32)),
+        Q::Const(q, s) => Box::new(ConstScoreQuery::new(make_query(q, text), *s as f32)),
+    }
+}
+
+fn gen_query(rng: &mut Rng, depth: usize) -> Q {
+    let leaf = |rng: &mut Rng| -> Q {
+        match rng.below(12) {
+            0..=5 => Q::Term(rng.pick(&WORDS).to_string()),
+            6 => Q::All,
+            7 => Q::Phrase(vec![rng.pick(&WORDS[..4]).to_string(), rng.pick(&WORDS[..4]).to_string()], rng.below(2) as u32),
+            8 => Q::Phrase(vec!["a".into(), "b".into(), rng.pick(&WORDS[..3]).to_string()], 0),
+            9 => Q::PhrasePrefix(vec![rng.pick(&WORDS[..3]).to_string(), rng.pick(&WORDS[..3]).to_string()]),
+            _ => {
+                let lo = rng.below(900);
+                Q::Range(lo, lo + *rng.pick(&[0u64, 5, 100, 600]))
+            }
+        }
+    };
+    if depth == 0 || rng.chance(1, 4) {
+        return leaf(rng);
+    }
+    match rng.below(8) {
+        0 => Q::Boost(Box::new(gen_query(rng, depth - 1)), 2 + rng.below(3) as u32),
+        1 => Q::Const(Box::new(gen_query(rng, depth - 1)), 1 + rng.below(5) as u32),
+        _ => {
+            let n = 1 + rng.usize_below(4);
+            let style = rng.below(5);
+            let cs: Vec<(u8, Q)> = (0..n)
+                .map(|i| {
+                    let o = match style {
+                        0 => 1,
+                        1 => 0,
+                        2 => if i == 0 { 0 } else { 1 },
+                        3 => if i == 0 { 0 } else { 2 },
+                        _ => rng.below(3) as u8,
+                    };
+                    (o, gen_query(rng, depth - 1))
+                })
+                .collect();
+            let shoulds = cs.iter().filter(|(o, _)| *o == 1).count();
+            let msm = if shoulds >= 2 && rng.chance(1, 4) { 2 } else { 0 };
+            Q::Bool(cs, msm)
+        }
+    }
+}
+
+fn contains_should(q: &Q) -> bool {
+    match q {
+        Q::Bool(cs, _) => cs.iter().any(|(o, c)| *o == 1 || contains_should(c)),
+        Q::Boost(q, _) | Q::Const(q, _) => contains_should(q),
+        _ => false,
+    }
+}
+fn contains_conjunction(q: &Q) -> bool {
+    match q {
+        Q::Bool(cs, _) => cs.iter().filter(|(o, _)| *o != 2).count() >= 2 || cs.iter().any(|(_, c)| contains_conjunction(c)),
+        Q::Boost(q, _) | Q::Const(q, _) => contains_conjunction(q),
+        Q::Phrase(..) | Q::PhrasePrefix(_) => true,
+        _ => false,
+    }
+}
+/// (is a conjunction of ≥ 2 MUST clauses without MUST_NOT) after stripping boost / const wrappers
+fn is_top_conjunction(q: &Q) -> bool {
+    match q {
+        Q::Bool(cs, _) => {
+            if cs.len() == 1 && cs[0].0 != 2 {
+                return is_top_conjunction(&cs[0].1);
+            }
+            cs.iter().filter(|(o, _)| *o == 0).count() >= 2 && cs.iter().all(|(o, _)| *o != 2)
+        }
+        Q::Boost(q, _) | Q::Const(q, _) => is_top_conjunction(q),
+        _ => false,
+    }
+}
+
+fn is_top_should_union(q: &Q) -> bool {
+    match q {
+        Q::Bool(cs, 0) => {
+            if cs.len() == 1 && cs[0].0 != 2 {
+                return is_top_should_union(&cs[0].1);
+            }
+            cs.len() >= 2 && cs.iter().all(|(o, _)| *o == 1)
+        }
+        Q::Boost(q, _) | Q::Const(q, _) => is_top_should_union(q),
+        _ => false,
+    }
+}
+
+fn check_query(ctx: &mut Ctx, index: &Index, text: tantivy::schema::Field, spec: &IndexSpec, q: &Q, scoring: bool, prog_seed: u64, fixed_prog: Option<Vec<Call>>) {
+    let reader = index.reader().unwrap();
+    let searcher = reader.searcher();
+    let seg = searcher.segment_reader(0);
+    let query = make_query(q, text);
+    let weight = match if scoring { query.weight(EnableScoring::enabled_from_searcher(&searcher)) } else { query.weight(EnableScoring::disabled_from_schema(&index.schema())) } {
+        Ok(w) => w,
+        Err(_) => {
+            ctx.report.count("query:weight-error");
+            return;
+        }
+    };
+    let mk = || weight.scorer(seg, 1.0);
+    // fresh scorer by plain advance
+    let fresh = catch_unwind(AssertUnwindSafe(|| {
+        let mut s = mk().ok()?;
+        let mut docs = vec![];
+        let mut scores = vec![];
+        let mut d = s.doc();
+        while d != TERMINATED {
+            docs.push(d);
+            scores.push(s.score());
+            d = s.advance();
+        }
+        Some((docs, scores))
+    }));
+    let mk_case = |prog: &[Call]| json!({"kind": "query", "index": spec, "query": q, "scoring": scoring, "prog": prog.iter().map(|c| c.text()).collect::<Vec<_>>()});
+    let (fdocs, fscores) = match fresh {
+        Ok(Some(x)) => x,
+        Ok(None) => {
+            ctx.report.count("query:scorer-error");
+            return;
+        }
+        Err(_) => {
+            ctx.report.violation("oracle", panic_key(), format!("panic while advancing a fresh scorer of {:?}: {}", q, last_panic()), mk_case(&[]));
+            return;
+        }
+    };
+    if !fdocs.windows(2).all(|w| w[0] < w[1]) || fdocs.iter().any(|d| *d >= spec.n) {
+        ctx.report.violation("oracle", "C13:advance-sequence-not-increasing", format!("{:?}: plain advance is not strictly increasing below max_doc", q), mk_case(&[]));
+        return;
+    }
+    let mut prng = Rng::new(prog_seed);
+    let prog = fixed_prog.unwrap_or_else(|| gen_program(&mut prng, &fdocs, true));
+    let ptext = prog_text(&prog);
+    let case = mk_case(&prog);
+    let qkind = match q { Q::Term(_) => "term", Q::All => "all", Q::Phrase(..) => "phrase", Q::PhrasePrefix(_) => "phrase-prefix", Q::Range(..) => "range", Q::Bool(_, 0) => "bool", Q::Bool(..) => "bool-msm", Q::Boost(..) => "boost", Q::Const(..) => "const" };
+    ctx.report.count(&format!("query:{qkind}"));
+    ctx.report.count(if scoring { "query:scoring" } else { "query:no-scoring" });
+    let nontrivial = fdocs.len() >= 2 && prog.len() >= 3 && prog.iter().any(|c| matches!(c, Call::Seek(_) | Call::Danger(_) | Call::Fill | Call::Bits(_)));
+    ctx.report.case(&format!("query|{}|{}|{scoring}|{ptext}", serde_json::to_string(spec).unwrap(), serde_json::to_string(q).unwrap()), nontrivial);
+    let mut obs = vec![];
+    let mut docs_after = vec![];
+    let mut incons = vec![];
+    let res = catch_unwind(AssertUnwindSafe(|| {
+        if let Ok(mut s) = mk() {
+            run_real(s.as_mut(), &prog, &mut obs, &mut docs_after, &mut incons);
+        }
+    }));
+    if res.is_err() {
+        ctx.report.violation("oracle", panic_key(), format!("{:?}: panic at call {} ({}) of a legal program: {}", q, obs.len(), prog.get(obs.len()).map(|c| c.text()).unwrap_or_default(), last_panic()), case.clone());
+    }
+    if let Some(x) = incons.first() {
+        ctx.report.violation("oracle", "C13:return-differs-from-doc", format!("{:?}: {x}", q), case.clone());
+    }
+    let top = if scoring && (is_top_should_union(q) || contains_should(q)) { "bunion-sum" } else if is_top_should_union(q) || contains_should(q) { "bunion" } else if is_top_conjunction(q) || contains_conjunction(q) { "inter" } else { "query" };
+    let score_of = |d: u32| -> Option<String> { if !scoring { return None; } fdocs.binary_search(&d).ok().map(|i| format!("x:{}", fscores[i])) };
+    // real observations print scores with full precision for the tolerance comparison
+    let v = judge_oracle(top, top == "inter", &fdocs, &prog, &obs.iter().map(|o| o.clone()).collect::<Vec<_>>(), &docs_after, &score_of, true);
+    for (key, what) in &v.oracle {
+        ctx.report.violation("oracle", key, format!("{:?} (scoring {scoring}): {what}", q), case.clone());
+    }
+    // harness-side cursor = Lean specification cursor
+    let resp = ctx.model.ask(&format!("C13 spec {} {ptext}", crate::model::nat_list(&fdocs)));
+    let mut cur = Cursor { all: &fdocs, pos: 0, danger: None, counted: false };
+    let mobs: Vec<&str> = if prog.is_empty() { vec![] } else { resp.split(';').collect() };
+    if mobs.len() != prog.len() {
+        ctx.report.violation("model", "C13:model-rejects-case", format!("spec model answered {}", &resp[..resp.len().min(60)]), case.clone());
+        return;
+    }
+    for (i, c) in prog.iter().enumerate() {
+        let e = cur.step(c);
+        let m = mobs[i];
+        let same = match c {
+            Call::Danger(_) => e == m[..1],
+            Call::Score => true,
+            _ => e == m,
+        };
+        if !same {
+            ctx.report.violation("model", "C13:spec-cursor-mismatch", format!("call {i} {}: harness cursor {e} vs Lean Spec {m}", c.text()), case.clone());
+            break;
+        }
+    }
+}
+
+// ------------------------------------------------------------------------------------------
+// corpus: known shapes replayed first
+// ------------------------------------------------------------------------------------------
+fn leaf(docs: Vec<u32>, score: u32) -> T {
+    T::Leaf { docs, score, kind: 0 }
+}
+
+fn corpus(ctx: &mut Ctx) {
+    // S4: union of two scoring children over 10 000 docs, 70 fill_buffer calls then advance + score
+    let a: Vec<u32> = (0..10_000).filter(|d| d % 2 == 0).collect();
+    let b: Vec<u32> = (0..10_000).filter(|d| d % 3 == 0).collect();
+    let t = T::BUnion { sum: true, cs: vec![leaf(a, 2), leaf(b, 3)], num_docs: 10_000 };
+    let mut prog = vec![Call::Fill; 70];
+    prog.extend([Call::Adv, Call::Score, Call::Adv, Call::Score]);
+    check_direct(ctx, &t, &prog, "corpus-s4");
+    // score read right after fill_buffer
+    let t2 = T::BUnion { sum: true, cs: vec![leaf((0..200).collect(), 1), leaf((64..200).collect(), 4)], num_docs: 200 };
+    check_direct(ctx, &t2, &[Call::Score, Call::Fill, Call::Score, Call::Adv, Call::Score], "corpus-fill-score");
+    // count_including_deleted leaves doc()
+    let t3 = T::BUnion { sum: false, cs: vec![leaf(vec![1, 5, 9000], 1), leaf(vec![5, 7], 1)], num_docs: 10_000 };
+    check_direct(ctx, &t3, &[Call::Adv, Call::Count, Call::Doc, Call::Adv, Call::Doc], "corpus-union-count");
+    let t4 = T::Inter { cs: vec![leaf(vec![1, 2000], 1), leaf(vec![1], 1)], num_docs: 10 };
+    check_direct(ctx, &t4, &[Call::Count, Call::Doc, Call::Adv, Call::Doc], "corpus-inter-dense-count");
+    // nested buffered unions under an intersection (seek_danger below the inner window start)
+    let x = T::BUnion { sum: false, cs: vec![leaf(vec![100, 5000, 5010], 1), leaf(vec![20_000], 1)], num_docs: 30_000 };
+    let u = T::BUnion { sum: false, cs: vec![leaf(vec![0], 1), x], num_docs: 30_000 };
+    let t5 = T::Inter { cs: vec![leaf(vec![0, 4600, 5000, 5010], 1), u], num_docs: 1_000_000 };
+    check_direct(ctx, &t5, &[Call::Doc, Call::Adv, Call::Adv, Call::Adv], "corpus-nested-union-danger");
+}
+
+pub fn replay(ctx: &mut Ctx, case: &serde_json::Value) {
+    let prog: Vec<Call> = case["prog"].as_array().map(|a| a.iter().filter_map(|x| x.as_str().and_then(Call::parse)).collect()).unwrap_or_default();
+    match case["kind"].as_str().unwrap_or("") {
+        "direct" => {
+            let t: T = serde_json::from_value(case["tree"].clone()).expect("tree");
+            let r = check_direct(ctx, &t, &prog, "replay");
+            ctx.report.notes.push(format!("replay direct: reported={r}"));
+        }
+        "query" => {
+            let spec: IndexSpec = serde_json::from_value(case["index"].clone()).expect("index");
+            let q: Q = serde_json::from_value(case["query"].clone()).expect("query");
+            let (index, text, _) = build_index(&spec);
+            check_query(ctx, &index, text, &spec, &q, case["scoring"].as_bool().unwrap_or(false), 0, Some(prog));
+        }
+        k => ctx.report.notes.push(format!("unknown replay kind {k}")),
+    }
+}
 
 pub fn run(ctx: &mut Ctx) {
-    ctx.report.notes.push("C13: harness not built yet".into());
+    std::panic::set_hook(Box::new(|info| {
+        if let Ok(mut s) = LAST_PANIC.lock() {
+            *s = info.to_string().chars().take(300).collect();
+        }
+    }));
+    ctx.report.rule = "case = (scorer tree or query on a generated index, legal call program); non-trivial = the set has ≥ 2 \
+        documents and the program has ≥ 3 calls including a seek / seek_danger / fill_buffer / fill_bitset_block; \
+        distinct = distinct (tree, program) texts".into();
+    ctx.report.correspondence_obligations = vec![
+        "every call result of the real combinator tree = Lean implementation-level model (C13 run), call by call".into(),
+        "real observations = specification cursor over the brute-force document list (oracle)".into(),
+        "score at d = score of a fresh scorer advanced to d = brute-force combination".into(),
+        "harness-side specification cursor = Lean Spec cursor (C13 spec) on real-query sequences".into(),
+        "extracted constants (TERMINATED, buffer length, block window, union horizon) = the harness's".into(),
+    ];
+    if let Some(case) = ctx.replay.clone() {
+        replay(ctx, &case);
+        return;
+    }
+    // constants the model was generated with
+    let consts = ctx.model.ask("C13 consts");
+    let expect = format!("TERMINATED={} BUFLEN={} BLOCK_WINDOW={} HORIZON={} NB={}", TERMINATED, COLLECT_BLOCK_BUFFER_LEN, BLOCK_WINDOW, HORIZON, HORIZON / 64);
+    if consts != expect {
+        ctx.report.violation("model", "C13:constants-differ", format!("model constants `{consts}` vs harness `{expect}`"), json!({"kind": "consts"}));
+    }
+    corpus(ctx);
+    // (a) direct combinators
+    let n_direct = ctx.budget(3000, 150_000);
+    for i in 0..n_direct {
+        let mut rng = ctx.rng.fork();
+        let max_doc = *rng.pick(&[300u32, 5000, 9000, 13_000, 20_000]);
+        let depth = *rng.pick(&[0usize, 1, 1, 1, 2, 2, 3]);
+        let mut pool = vec![];
+        let t = gen_tree(&mut rng, depth, max_doc, &mut pool);
+        let all = t.docs();
+        let progs = 1 + rng.usize_below(2);
+        for _ in 0..progs {
+            let prog = gen_program(&mut rng, &all, true);
+            let reported = check_direct(ctx, &t, &prog, "gen");
+            if !reported && i < 3 && ctx.report.samples.len() < 3 {
+                ctx.report.sample(json!({"tree": t.top(), "depth": t.depth(), "docs": all.len(), "program": prog_text(&prog)}));
+            }
+        }
+    }
+    // (b) real queries
+    let n_index = ctx.budget(3, 12);
+    let per_index = ctx.budget(250, 4000);
+    for k in 0..n_index {
+        let mut rng = ctx.rng.fork();
+        let n = [9000u32, 300, 4200, 1, 130, 13_000][k as usize % 6];
+        let spec = IndexSpec { n, seed: rng.next_u64() };
+        let (index, text, _num) = build_index(&spec);
+        for j in 0..per_index {
+            let qd = *rng.pick(&[0usize, 1, 2, 2]);
+            let q = gen_query(&mut rng, qd);
+            let scoring = rng.chance(1, 2);
+            let ps = rng.next_u64();
+            check_query(ctx, &index, text, &spec, &q, scoring, ps, None);
+            if j < 2 && ctx.report.samples.len() < 5 {
+                ctx.report.sample(json!({"index_docs": n, "query": format!("{:?}", q), "scoring": scoring}));
+            }
+        }
+    }
 }
